@@ -96,7 +96,7 @@ def walkTree (structs : List (String × SegMap)) (m : SegMap) (current : Childre
         | .any => .found f
         | .struct sname =>
           match getKV structs sname with
-          | none => .panic ("struct `" ++ sname ++ "` not found")
+          | none => .absent          -- `self.structs.get(struct_name)?`: an undefined struct leads nowhere
           | some strukt => walkTree structs strukt (extractIntoTree strukt) (r :: rest)
         | _ => walkTree structs m n.children (r :: rest)
 
